@@ -299,6 +299,46 @@ def h_copies_interleaved(ctx, cfg):
     ctx.prove(_same_list(got[j], list(src[pre:])), "copies-mutually-independent", "copy %d" % j)
 
 
+class UserIter:
+  def __init__(self, items): self.items, self.i = list(items), 0
+  def __iter__(self): return self
+  def __next__(self):
+    if self.i >= len(self.items): raise StopIteration
+    self.i += 1
+    return self.items[self.i - 1]
+
+
+def h_tee_kinds(ctx, cfg):
+  """lazy_itertools.tee(data, n): n independent Streams for a Stream or ANY iterator, n times the same object otherwise."""
+  from audiolazy import Stream
+  from audiolazy.lazy_itertools import tee
+  L = cfg["L"]
+  src = ctx.elems("e", L)
+  n = ctx.split("n", 1, 3)
+  kind = cfg["kind"]
+  data = {"stream": lambda: Stream(list(src)), "gen": lambda: (e for e in src), "listiter": lambda: iter(list(src)),
+          "chain": lambda: it.chain(list(src[:1]), list(src[1:])), "islice": lambda: it.islice(list(src), L),
+          "useriter": lambda: UserIter(src), "map": lambda: map(lambda v: v, list(src)), "zipiter": lambda: iter(tuple(src)),
+          "list": lambda: list(src), "tuple": lambda: tuple(src), "number": lambda: 7, "none": lambda: None}[kind]()
+  res = tee(data, n) if cfg.get("pos", True) else tee(data, n=n)
+  ctx.prove(isinstance(res, tuple) and len(res) == n, "tee-returns-n-items")
+  if kind in ("list", "tuple", "number", "none"):
+    ctx.prove(all(r is data for r in res), "tee-of-a-non-iterator-is-the-object-n-times")
+    return
+  ctx.prove(all(type(r) is Stream for r in res) and len(set(id(r) for r in res)) == n, "tee-of-an-iterator-gives-n-distinct-streams",
+            "types %r" % [type(r).__name__ for r in res])
+  its = [iter(r) for r in res]
+  got = [[] for _ in its]
+  live = list(range(len(its))); step = 0
+  while live and step < 30:
+    j = live[ctx.split("pick%d" % step, 0, len(live) - 1)] if len(live) > 1 else live[0]
+    step += 1
+    try: got[j].append(next(its[j]))
+    except StopIteration: live.remove(j)
+  for j in range(len(its)):
+    ctx.prove(_same_list(got[j], list(src)), "tee-outputs-independent-and-complete", "output %d of %s" % (j, kind))
+
+
 def tasks(tier, seed):
   big = tier == "thorough"
   T = []
@@ -332,6 +372,9 @@ def tasks(tier, seed):
       T.append(("h_thub", {"L": L, "n": 3, "src": src, "interleave": False,
                            "kinds": None if big else ["iter", "stream", "limit", "map"]}))
   T.append(("h_thub_noniter", {}))
+  for kind in ("stream", "gen", "listiter", "chain", "islice", "useriter", "map", "zipiter", "list", "tuple", "number", "none"):
+    T.append(("h_tee_kinds", {"kind": kind, "L": 2 if not big else 3}))
+  T.append(("h_tee_kinds", {"kind": "listiter", "L": 2, "pos": False}))
   for how in ("copy", "tee"):
     for L in ((1, 2) if not big else (2, 3, 4)):
       T.append(("h_copies_interleaved", {"L": L, "how": how}))
